@@ -36,6 +36,8 @@ class ObjectsCheck:
             "the composition over the whole type grammar (TypeContract induction of DESIGN 4.3) is not mechanised: the deductive obligations "
             "cover the listed functions; whole objects are covered by the bounded native part only",
             "strings contain no U+0000 (a NUL-terminated format cannot represent it)",
+            "assumed contracts on dependencies in the array proofs: range(n) yields 0..n-1 in order; np.ndindex(*dims) yields as its k-th element the "
+            "C-order digits of k (the contract of array.iter_index that the writers iterate under is itself discharged, group iter_index_contract)",
             "bounded part: grammar slice of checks/grammar.py, generated values, placements with allocation history; not exhaustive",
         ]
         self.EXPLANATION = (
